@@ -121,6 +121,8 @@ struct Exec {
   std::set<uint64_t> states, transitions, covcells;
   long double factors[6];
   const long double* eval_abs = nullptr;  // absolute evaluation point (Twin re-evaluation), else pool point + offset
+  bool eval_abs_k = false;                // take the moment order from the step verbatim (Twin/Fresh/order walk)
+  bool skip_frame = false;                // order walk: the read-back is done once at the end, not after each call
   Fnv ileave;  // interleaving signature: sequence of (client, op)
 
   explicit Exec(const Plan& p) : plan(p) {
@@ -222,6 +224,16 @@ struct Exec {
   template <typename S>
   static S ms(long double v) {
     return (S)v;
+  }
+  // admissible value = post-init value x factor; factors 4 and 5 are one-ulp steps of the precision in use, so that
+  // "the parameter changed, but only in the last bits" is a frequent event
+  template <typename S>
+  S admissible(long double d, int c) const {
+    int i = ((c % 6) + 6) % 6;
+    S f = i == 4 ? S(1) + std::numeric_limits<S>::epsilon() : i == 5 ? S(1) - std::numeric_limits<S>::epsilon() / 2 : (S)factors[i];
+    S v = (S)d * f;
+    if (d == 0 && i != 0) v = (S)(factors[i] - 1.0L);
+    return v;
   }
   template <typename S>
   static const S marker() {
@@ -423,6 +435,21 @@ struct Exec {
         viols.push_back(v);
       }
     }
+  }
+
+  // A C entry point returned normally where the model expects a fatal error.  If the C++ <double> call on the same
+  // arguments does abort, the two interfaces differ: that is C17's business too.  (Only called when the library state
+  // can still be followed: exception build, or the exit() build where everything ran in forked copies.)
+  template <typename F>
+  void c_abort_mismatch(size_t first_new_violation, const char* what, F cxx_prim) {
+    bool returned = false;
+    for (size_t i = first_new_violation; i < viols.size(); ++i)
+      if (viols[i].prop == "C16" && viols[i].oracle.compare(0, 10, "C16.abort.") == 0 && contains(viols[i].msg, "returned normally")) returned = true;
+    if (!returned || kExcBuild) return;  // in the exception build the C call has already changed the state
+    orc_eval("C17");
+    CallOut co = call(true, cxx_prim);
+    if (co.oc == OC_ABORT1)
+      viol("C17", "C17.abort_mismatch", what, std::string("the C ") + what + " returns normally where MASA::" + what + "<double> with the same arguments is a fatal error");
   }
 
   // ------------------------------------------------------------------ discovery after a successful init
@@ -642,9 +669,12 @@ static void cb_yield() {
 
 // ---------------------------------------------------------------------- INIT
 template <typename S>
-void Exec::do_init(const Step& st, const Client& cl, const std::string& handle, const std::string& raw) {
+void Exec::do_init(const Step& st, const Client& cl, const std::string& handle_in, const std::string& raw_in) {
   (void)st;
   const bool C = cl.lang == 1;
+  // a C caller hands over C strings: whatever follows an embedded NUL does not exist for it
+  const std::string handle = C ? std::string(handle_in.c_str()) : handle_in;
+  const std::string raw = C ? std::string(raw_in.c_str()) : raw_in;
   const int prec = cl.prec;
   Reg& R = reg[prec];
   int solidx = resolve_solution(raw);
@@ -652,12 +682,14 @@ void Exec::do_init(const Step& st, const Client& cl, const std::string& handle, 
     // F2b: a name that does not normalise to a catalogue name is fatal and registers nothing
     orc_eval("C13");
     size_t before = viols.size();
+    size_t nv0 = viols.size();
     fatal_protocol("F2b_init_unknown_name", "masa_init", [&] {
       if (C)
         ::masa_init(handle.c_str(), raw.c_str());
       else
         MASA::masa_init<S>(handle, raw);
     });
+    if (C && !stop) c_abort_mismatch(nv0, "masa_init", [&] { MASA::masa_init<double>(handle, raw); });
     // the same observations decide C13's "fatal error that registers nothing"
     for (size_t i = before; i < viols.size(); ++i) {
       Violation v = viols[i];
@@ -726,16 +758,19 @@ void Exec::do_eval(const Step& st, const Client& cl, int ev, int depth) {
   const bool iscb = !strcmp(E.sig, "cb");
   const bool hasC = E.cname[0] != 0;
   const bool intsig = !strcmp(E.sig, "i");
+  bool nullcb = false;  // a null callback is only ever passed where the solution does not provide the evaluator
   auto prim = [&](bool viaC) -> S {
     if (viaC && hasC) {
       EvalArgs<double> ad;
       for (int i = 0; i < 4; ++i) ad.x[i] = (double)a.x[i];
       ad.k = a.k;
-      return (S)call_eval_c(ev, ad, &cb_d);
+      return (S)call_eval_c(ev, ad, nullcb ? nullptr : &cb_d);
     }
-    return call_eval_cxx<S>(ev, a, CbFn<S>::get());
+    return call_eval_cxx<S>(ev, a, nullcb ? nullptr : CbFn<S>::get());
   };
+  static const int wildk[] = {0, 1, 2, -1, -2, 7, -100, 2147483647, -2147483647 - 1, 40};
   if (!R.has_cur) {
+    if (intsig) a.k = wildk[(size_t)((st.k < 0 ? -st.k : st.k) + (int)(st.u % 10)) % 10];  // the check comes before any look at the arguments
     fatal_protocol("F2c_call_before_init", std::string("masa_eval_") + E.shortname, [&] { (void)prim(C); });
     return;
   }
@@ -749,12 +784,16 @@ void Exec::do_eval(const Step& st, const Client& cl, int ev, int depth) {
   if (intsig) {
     if (supported) {
       if (a.k < 0) a.k = -a.k;
-      a.k %= 9;  // moment orders 0..8: negative orders are outside the documented domain of a provided evaluator
+      // non-negative orders only (negative ones are outside the documented domain of a provided evaluator): usually 0..8,
+      // sometimes anything up to 400, and exactly st.k when the order walk of SWEEP asks for it
+      if (eval_abs_k) a.k = a.k % 401;
+      else if ((st.u >> 24) % 10 == 7) a.k = (int)((st.u >> 28) % 401);
+      else a.k %= 9;
     } else {
-      static const int wildk[] = {0, 1, 2, -1, -2, 7, -100, 2147483647, -2147483647 - 1, 40};
       a.k = wildk[(size_t)((st.k < 0 ? -st.k : st.k) + (int)(st.u % 10)) % 10];  // "at arbitrary arguments"
     }
   }
+  if (iscb && !supported && (st.u >> 20) % 3 == 0) nullcb = true;
   if (supported && !inst.evaluable()) {
     ++skipped;
     return;
@@ -878,7 +917,7 @@ void Exec::do_eval(const Step& st, const Client& cl, int ev, int depth) {
            std::string(E.cname) + " returns " + fmt_ld(rc) + " [" + fmt_bits(bits_of(rc)) + "] but the same solution, parameters and arguments evaluate to [" + fmt_bits(it2->second.first) + "]");
   }
   // evaluating never changes a parameter
-  if (!selection_moved) verify_selected<S>(prec, inst2, "C10", "C10.frame.eval");
+  if (!selection_moved && !skip_frame) verify_selected<S>(prec, inst2, "C10", "C10.frame.eval");
   Inst::Recent rc2;
   rc2.ev = ev;
   for (int i = 0; i < 4; ++i) rc2.x[i] = a.x[i];
